@@ -188,12 +188,12 @@ PROPS = {
     ),
     "C16": dict(
         claim="Lean model of the per-session type caches (GetIteratorForType / GetBuilderGeneratorForType: Load, LoadOrStore of a WaitGroup placeholder, generate, Done, Store, and the failure branch) as a transition system over any number of goroutines; "
-              "theorems for every history of calls in every interleaving: at any moment with no call in flight the cache entry is never a placeholder (quiescent_cache_has_no_placeholder), and after failed generations (unsupported kinds) it is exactly what a fresh session holds (failed_generation_leaves_fresh_cache); the model of the code before fix e509a33 is shown by `decide` to violate both. "
+              "theorems for every history of calls in every interleaving: at any moment with no call in flight the cache entry is never a placeholder (quiescent_cache_has_no_placeholder), and after failed generations (unsupported kinds) it is exactly what a fresh session holds (failed_generation_leaves_fresh_cache); the model of the code before fix e509a33 is shown by `decide` to violate both. Many entries (CE/Cache/Multi.lean: the cache as a set of types with the dependency structure of Go types, recursive types included, the failure branch deleting every entry that reaches the failing type as common.TypeReaches does): theorem reused_session_answers_like_fresh - starting from a new session's empty cache, after ANY history of successful and failed requests for ANY types, each request succeeds exactly when a fresh session would generate the type (no unsupported kind reachable) and the cache never keeps a generator that stands on an unsupported kind (proved by mutual induction over the generation relation, with a path-splitting lemma for types in flight); an example derivation shows the *Link generator completed while Link was in flight being deleted with it. "
               "Regenerated facts (CE/Gen/Session.lean, proved equal to the model's expectations in CE/Gen/CheckSession.lean on every run): the protocol operations of both cache functions in source order, and for each per-document reset point (cbe Reader.SetReader, cbe Encoder.PrepareToEncode, rules Context.Reset, cte EncoderContext.Begin) the struct's fields and the fields the reset point assigns, which must cover the fields that influence the next document. "
               "Harness: histories of 2-8 operations on one marshaler / unmarshaler / decoder / event-level encoder / validator (valid and invalid documents and values, unsupported and never-seen types, declared recursive types with an unsupported field reached directly and through pointer / slice / struct wrappers, documents near MaxDocumentSizeBytes, encoders abandoned mid-document, streams rejected by the validator then Reset) compared call by call with fresh instances, with a watchdog for calls that never return",
-        note="partial: the cache model has ONE entry: the entries of types built on top of a failing one (pointer to it, slice of it), which the failure branch now also deletes (fix 7c58b8f, found by this check's recursive templates), are covered by the extracted protocol (cache.Range / cache.Delete tokens) and the history oracle only; the reset points are tied by extracted field facts + the history oracle, not by a theorem over a model of each component; marshaler outputs that differ only in Go's random map iteration order are compared as data (Lean TREE.EQ). Event-level encoders are exercised with valid streams and abandoned prefixes only (their behaviour on invalid event sequences is unspecified)",
+        note="partial: the all-schedules theorems are over a ONE-entry model, the many-entry theorem is sequential (one goroutine) and relational (tied to the code by the extracted protocol tokens cache.Range / cache.Delete and by the history oracle, not by an executable correspondence); fix 7c58b8f was found by this check's recursive templates; the reset points are tied by extracted field facts + the history oracle, not by a theorem over a model of each component; marshaler outputs that differ only in Go's random map iteration order are compared as data (Lean TREE.EQ). Event-level encoders are exercised with valid streams and abandoned prefixes only (their behaviour on invalid event sequences is unspecified)",
         level="proof", n_quick=2400, n_thorough=120000, shards=16, timeout_quick=600,
-        lean_modules=["CE.Props.C16", "CE.Cache.Proofs", "CE.Gen.CheckSession"],
+        lean_modules=["CE.Props.C16", "CE.Cache.Proofs", "CE.Cache.MultiProofs", "CE.Gen.CheckSession"],
         rule="case i: instance kind i mod 12; 2-8 operations drawn per kind (see harness/run_reuse.go); distinct by kind + operation descriptions; non-trivial = at least 2 operations",
         trusted_base=COMMON_TB + ["extract/main.go cacheproto/resetfacts: go/ast reading of the cache functions and reset points", "sync.Map and sync.WaitGroup are assumed linearizable (Go runtime)"],
     ),
